@@ -6,7 +6,8 @@
               ; for i := range n { tryDial(addrs[(idx%n+i)%n]) }          (uint32 arithmetic)
      tryDial  = Check t                  time.Until(deadline) <= 0  -> ErrDialTimeout(addr)
               ; (AcqFast t | AcqFull t ; (AcqSlow t | SemTimeout t))      the concurrencyCh semaphore racing a timer
-              ; (ConnOk t | ConnRefused t | ConnDeadline t)               net.Dialer.DialContext: outcome oracle
+              ; (ConnOk t | ConnRefused t | ConnDeadline t)               net.Dialer.DialContext under a context that expires
+                                                                          at the dial's deadline: outcome oracle
      Tick d   = logical time advances
 
    The semaphore is released (`defer func() { <-concurrencyCh }()`) in the step that ends the connect.
@@ -33,7 +34,7 @@ Inductive tpc :=
 | TLoop (dl i0 k : N) (tried : list N)      (* about to call tryDial for the k-th time; i0 = index drawn *)
 | TSem (dl i0 k : N) (tried : list N)       (* before `select { case concurrencyCh <- struct{}{}: default: }` *)
 | TSemWait (dl i0 k : N) (tried : list N)   (* in `select { case concurrencyCh <- struct{}{}: case <-tc.C: }` *)
-| TConn (dl i0 k : N) (tried : list N)      (* holds the semaphore, inside DialContext *)
+| TConn (dl cdl i0 k : N) (tried : list N)  (* holds the semaphore, inside DialContext whose context expires at cdl *)
 | TDone (r : xres) (dl i0 : N) (tried : list N) (at_ : N).   (* returned r at logical time at_ *)
 
 Record dstate := mkDS {
@@ -57,6 +58,11 @@ Definition upd {A} (f : N -> A) (k : N) (v : A) : N -> A := fun x => if x =? k t
 (* addrs[(idx%n + i) % n] in the k-th iteration; the sum is a uint32 *)
 Definition addr_of (c : dcfg) (i0 k : N) : N := ((i0 mod nad c + k) mod W32) mod (nad c).
 
+(* ctx, cancelCtx := context.WithDeadline(context.Background(), deadline): the connect of an attempt is cut at the
+   dial's deadline dl — NOT at now + time.Until(deadline) as computed at the top of tryDial, before the attempt may have
+   waited for the semaphore (`now` is the time the connect starts; it is deliberately unused). *)
+Definition conn_ctx_deadline (dl now : N) : N := dl.
+
 Definition set_tp (s : dstate) (t : N) (p : tpc) : dstate := mkDS (sem s) (aidx s) (clock s) (upd (tp s) t p) (inprog s).
 Definition has_slot (c : dcfg) (s : dstate) : bool := (cap c =? 0) || (sem s <? cap c).
 Definition acquire (c : dcfg) (s : dstate) (t : N) (p : tpc) : dstate :=
@@ -79,32 +85,32 @@ Definition dstep (c : dcfg) (s : dstate) (l : dlabel) : option dstate :=
                     else Some (set_tp s t (TSem dl i0 k tr))
                 | _ => None end
   | LAcqFast t => match tp s t with
-                  | TSem dl i0 k tr => if has_slot c s then Some (acquire c s t (TConn dl i0 k tr)) else None
+                  | TSem dl i0 k tr => if has_slot c s then Some (acquire c s t (TConn dl (conn_ctx_deadline dl (clock s)) i0 k tr)) else None
                   | _ => None end
   | LAcqFull t => match tp s t with
                   | TSem dl i0 k tr => if has_slot c s then None else Some (set_tp s t (TSemWait dl i0 k tr))
                   | _ => None end
   | LAcqSlow t => match tp s t with
-                  | TSemWait dl i0 k tr => if has_slot c s then Some (acquire c s t (TConn dl i0 k tr)) else None
+                  | TSemWait dl i0 k tr => if has_slot c s then Some (acquire c s t (TConn dl (conn_ctx_deadline dl (clock s)) i0 k tr)) else None
                   | _ => None end
   | LSemTimeout t => match tp s t with
                      | TSemWait dl i0 k tr =>
                          if dl <=? clock s then Some (set_tp s t (TDone (XTimeout (addr_of c i0 k)) dl i0 tr (clock s))) else None
                      | _ => None end
   | LConnOk t => match tp s t with
-                 | TConn dl i0 k tr => let a := addr_of c i0 k in
+                 | TConn dl _ i0 k tr => let a := addr_of c i0 k in
                                        Some (release c s t (TDone (XOk a) dl i0 (tr ++ [a]) (clock s)))
                  | _ => None end
   | LConnRefused t => match tp s t with
-                      | TConn dl i0 k tr =>
+                      | TConn dl _ i0 k tr =>
                           let a := addr_of c i0 k in
                           if k + 1 <? nad c then Some (release c s t (TLoop dl i0 (k + 1) (tr ++ [a])))
                           else Some (release c s t (TDone (XErr a) dl i0 (tr ++ [a]) (clock s)))
                       | _ => None end
   | LConnDeadline t => match tp s t with
-                       | TConn dl i0 k tr =>
+                       | TConn dl cdl i0 k tr =>
                            let a := addr_of c i0 k in
-                           if dl <=? clock s then Some (release c s t (TDone (XTimeout a) dl i0 (tr ++ [a]) (clock s))) else None
+                           if cdl <=? clock s then Some (release c s t (TDone (XTimeout a) dl i0 (tr ++ [a]) (clock s))) else None
                        | _ => None end
   | LTick d => Some (mkDS (sem s) (aidx s) (clock s + d) (tp s) (inprog s))
   end.
@@ -133,7 +139,7 @@ Definition step_thread (c : dcfg) (s : dstate) (oracle : N -> outcome) (t : N) :
   | TLoop _ _ _ _ => dstep c s (LCheck t)
   | TSem _ _ _ _ => match dstep c s (LAcqFast t) with Some s1 => Some s1 | None => dstep c s (LAcqFull t) end
   | TSemWait _ _ _ _ => match dstep c s (LAcqSlow t) with Some s1 => Some s1 | None => dstep c s (LSemTimeout t) end
-  | TConn _ i0 k _ =>
+  | TConn _ _ i0 k _ =>
       match oracle (addr_of c i0 k) with
       | OAccept => dstep c s (LConnOk t)
       | ORefuse => dstep c s (LConnRefused t)
@@ -147,7 +153,7 @@ Fixpoint first_step (c : dcfg) (s : dstate) (oracle : N -> outcome) (ts : list N
   | t :: r => match step_thread c s oracle t with Some s1 => Some s1 | None => first_step c s oracle r end
   end.
 Definition waiting_dl (s : dstate) (t : N) : option N :=
-  match tp s t with TSemWait dl _ _ _ | TConn dl _ _ _ => Some dl | _ => None end.
+  match tp s t with TSemWait dl _ _ _ | TConn _ dl _ _ _ => Some dl | _ => None end.
 Fixpoint min_dl (s : dstate) (ts : list N) : option N :=
   match ts with
   | [] => None
